@@ -699,6 +699,16 @@ int _vnacal_apply_common(vnacal_apply_args_t vaa)
     }
 
     /*
+     * The corrected S-parameters are relative to the system impedance
+     * of the calibration.
+     */
+    if (vnadata_set_all_z0(vaa.vaa_s_parameters, calp->cal_z0) == -1) {
+	_vnacal_error(vcp, VNAERR_SYSTEM, "vnadata_set_all_z0: %s",
+		strerror(errno));
+	return -1;
+    }
+
+    /*
      * For each frequency index...
      */
     for (int findex = 0; findex < vaa.vaa_frequencies; ++findex) {
